@@ -7,13 +7,14 @@ from lib.verif import *
 THEOREMS = [
     "C07_add_once", "C07_adds_returned_are_decided", "C07_one_response_per_run",
     "C07_restart_exact", "C07_restart_gap_refuted", "C07_rollback", "C07_discipline_invariant",
+    "C07_restart_identity",
 ]
 MODULE = "LV.Circuit.Props"
 TARGETS = ["theories/Circuit/Props.vo", "theories/Circuit/Exec.vo", "theories/Circuit/Examples.vo"]
-HARNESS = ["htlcswitch/verif_circuit_test.go"]
+HARNESS = ["htlcswitch/verif_circuit_test.go", "htlcswitch/verif_circuit_ident_test.go"]
 WARM = [{"pkg": "htlcswitch", "files": HARNESS}]
 IMPORTS = ("From stdpp Require Import gmap.\n"
-           "From LV Require Import Circuit.Model Circuit.Exec.\n")
+           "From LV Require Import Circuit.Model Circuit.Identity Circuit.Exec.\n")
 
 
 # ---- Coq term printers ------------------------------------------------------
@@ -26,7 +27,19 @@ def cview(v):
     return "(%s, %s, %s, %d)" % (ck(v[0:2]), copt(v[2], ck), cbool(v[3]), v[4])
 
 
+def crec(r):
+    return "(ChanRec %d %s %s %d %s %s %d)" % (r[0], cbool(r[1]), cbool(r[2]), r[3], cbool(r[4]),
+                                             copt(r[5], lambda x: "%d" % x), r[6])
+
+
 def crc(rc):
+    if "records" in rc:
+        # channel-identity cases: the model derives the restart configuration from the channel
+        # RECORDS (Circuit/Identity.v), cr_short being the id the live link uses
+        return "(rc_of_records %s %s %s)" % (
+            clist(["(%s, %s)" % (crec(c[0]), cbool(c[1])) for c in rc["records"]["closed"]]),
+            clist([ck(k) for k in rc["resmsg"]]),
+            clist([crec(a) for a in rc["records"]["active"]]))
     return "(RConf %s %s %s)" % (
         clist(["(%d, %s)" % (c[0], cbool(c[1])) for c in rc["closed"]]),
         clist([ck(k) for k in rc["resmsg"]]),
@@ -100,6 +113,10 @@ nfailed_delete_notwf = [0]
 witness_seen = {}
 ndisc_states = [0]
 ndisc_cases = [0]
+ident_stats = {"kinds": {}, "shapes": {}, "channel_state_at_restart": {},
+               "uncommitted_keystones_required_rolled_back": {}, "committed_keystones_required_open": {},
+               "replayed_adds_required_failed_back": 0, "replayed_adds_required_dropped": 0,
+               "keystones_of_closed_or_closing_channels_left_to_the_purge_rule": 0}
 
 
 def kt(k):
@@ -211,11 +228,86 @@ def expected_after_restart(pre, rc):
     return pend, opened, outs, contig
 
 
+def ident_predicate(case):
+    """Channel-identity cases: the restart clause of the property read DIRECTLY against the
+    harness's own bookkeeping (which outgoing HTLC of which real channel was signed into a
+    commitment), independent of the model and of the restart configuration: on an open channel
+    of ANY identity kind a committed outgoing HTLC keeps its circuit open under the id the link
+    uses and the replayed incoming ADD is dropped; an outgoing HTLC that never reached a
+    commitment is rolled back to half-open and the replayed ADD is FAILED back (not lost)."""
+    fails = []
+    st = case["steps"]
+    rs = st[case["restart_step"]]
+    n = case["restart_step"]
+    opened = {kt(e[0]): kt(e[1][0:2]) for e in rs["snap"]["o"]}
+    pend = {kt(e[0]): e[1] for e in rs["snap"]["p"]}
+    rp = st[case["replay_step"]]["out"] if case["replay_step"] > n else None
+    drops = {kt(x) for x in rp[2]} if rp and rp[0] == "commit" else set()
+    rfails = {kt(x) for x in rp[3]} if rp and rp[0] == "commit" else set()
+    cstate = {0: "open", 1: "close-pending", 2: "fully-closed"}
+    links = set()
+    for ch in case["chans"]:
+        kind = ch["kind"]
+        ident_stats["kinds"][kind] = ident_stats["kinds"].get(kind, 0) + 1
+        sh = "locked%d/signed%d/unsigned%d" % tuple(ch["shape"])
+        ident_stats["shapes"][sh] = ident_stats["shapes"].get(sh, 0) + 1
+        cs = cstate[ch["closed"]] if kind != "funding-pending" else "funding-pending"
+        ident_stats["channel_state_at_restart"][cs] = ident_stats["channel_state_at_restart"].get(cs, 0) + 1
+        links.add(ch["link"])
+        what = "%s channel (link id %d, alias %d, confirmed scid %d)" % (kind, ch["link"], ch["alias"],
+                                                                      ch["confirmed"])
+        for h in ch["htlcs"]:
+            i, o = kt(h["in"]), kt(h["out"])
+            if h["answered"]:
+                if o in opened or i in pend:
+                    fails.append(("C07_restart_exact", "step %d: circuit %s -> %s of a %s was answered and "
+                                  "deleted before the restart but is back" % (n, i, o, what)))
+                continue
+            if ch["closed"] != 0:
+                # close summary written: purge rule / nothing at all while the close is pending;
+                # covered by the set-level restart specification of predicate()
+                ident_stats["keystones_of_closed_or_closing_channels_left_to_the_purge_rule"] += 1
+                continue
+            if h["committed"]:
+                d = ident_stats["committed_keystones_required_open"]
+                d[kind] = d.get(kind, 0) + 1
+                if opened.get(o) != i or i not in pend or pend[i][2] is None or kt(pend[i][2]) != o:
+                    fails.append(("C07_restart_exact", "step %d: outgoing HTLC %s of a %s reached a commitment "
+                                  "but its circuit %s is not open under the link's id after the restart"
+                                  % (n, o, what, i)))
+                elif rp is not None:
+                    ident_stats["replayed_adds_required_dropped"] += 1
+                    if i not in drops or i in rfails:
+                        fails.append(("C07_restart_exact", "step %d: replayed ADD %s (outgoing HTLC %s of a %s is "
+                                      "committed) was not dropped" % (case["replay_step"], i, o, what)))
+            else:
+                d = ident_stats["uncommitted_keystones_required_rolled_back"]
+                d[kind] = d.get(kind, 0) + 1
+                if o in opened or i not in pend or pend[i][2] is not None:
+                    fails.append(("C07_restart_exact", "step %d: outgoing HTLC %s of a %s never reached a commitment "
+                                  "but its circuit %s is still open after the restart (not rolled back to "
+                                  "half-open)" % (n, o, what, i)))
+                if rp is not None:
+                    ident_stats["replayed_adds_required_failed_back"] += 1
+                    if i not in rfails:
+                        fails.append(("C07_restart_exact", "step %d: replayed ADD %s was %s instead of failed back "
+                                      "although its outgoing HTLC %s on a %s never reached a commitment: the "
+                                      "incoming HTLC gets no response"
+                                      % (case["replay_step"], i, "dropped" if i in drops else "not answered",
+                                         o, what)))
+    for o in opened:
+        if o[0] not in links:
+            fails.append(("C07_restart_exact", "step %d: keystone %s is open under an id no link uses" % (n, o)))
+    return fails
+
+
 def predicate(case):
     """Returns list of (theorem, message).  Model-independent: only the
     implementation's returned values and lookups are used."""
     fails = []
-    seq = case["mode"] in ("seq", "exh") or (case["mode"] == "wit" and case.get("name") != "delete_races_commit")
+    if case["mode"] == "ident":
+        fails += ident_predicate(case)
+    seq = case["mode"] in ("seq", "exh", "ident") or (case["mode"] == "wit" and case.get("name") != "delete_races_commit")
     responded, addev = set(), {}
     calls = {}            # thread -> dict(kind, args, pre snapshot, removed keys, adds)
     prev = EMPTY
@@ -607,6 +699,15 @@ def run(ctx):
         "witness_histories_on_real_code": witness_report(allrows),
         "states_of_disciplined_prefixes_checked_coherent": ndisc_states[0],
         "histories_disciplined_to_the_end": ndisc_cases[0],
+        "channel_identity_cases": dict(ident_stats, what=(
+            "mode 'ident': real lnwallet channels over real channeldb records of every identity kind "
+            "(regular, zero-conf unconfirmed / confirmed / confirmed after the keystones / re-confirmed "
+            "after a reorg, option-scid-alias channel type, scid-alias feature only, anchors zero-conf, "
+            "funding-pending) x HTLC shapes (locked-in / signed / keystone only), optional real "
+            "CloseChannel (pending or full) with resolution messages; keystones keyed by the live "
+            "link's ShortChanID; NewCircuitMap over the real FetchAllOpenChannels/FetchClosedChannels; "
+            "replay of the incoming forwarding package; link start trim; second restart; counts are "
+            "per channel / per keystone checked by the model-independent truth predicate")),
     })
     ctx.assumptions += [
         "atomicity/durability of a kvdb transaction (bbolt) is assumed, not proved",
